@@ -7,6 +7,10 @@ type nat =
 
 val option_map : ('a1 -> 'a2) -> 'a1 option -> 'a2 option
 
+val fst : ('a1 * 'a2) -> 'a1
+
+val snd : ('a1 * 'a2) -> 'a2
+
 val length : 'a1 list -> nat
 
 val app : 'a1 list -> 'a1 list -> 'a1 list
@@ -20,6 +24,8 @@ val add : nat -> nat -> nat
 
 val sub : nat -> nat -> nat
 
+val eqb : bool -> bool -> bool
+
 module Nat :
  sig
   val eqb : nat -> nat -> bool
@@ -32,6 +38,18 @@ module Nat :
  end
 
 val nth_error : 'a1 list -> nat -> 'a1 option
+
+val map : ('a1 -> 'a2) -> 'a1 list -> 'a2 list
+
+val flat_map : ('a1 -> 'a2 list) -> 'a1 list -> 'a2 list
+
+val fold_left : ('a1 -> 'a2 -> 'a1) -> 'a2 list -> 'a1 -> 'a1
+
+val fold_right : ('a2 -> 'a1 -> 'a1) -> 'a1 -> 'a2 list -> 'a1
+
+val forallb : ('a1 -> bool) -> 'a1 list -> bool
+
+val filter : ('a1 -> bool) -> 'a1 list -> 'a1 list
 
 val firstn : nat -> 'a1 list -> 'a1 list
 
@@ -201,3 +219,203 @@ val decode_ops : n list -> op list
 val run_ops : bool -> inflights -> op list -> n list
 
 val run_inflights : n list -> n list
+
+type idset = n list
+
+val mem : n -> n list -> bool
+
+val insert : n -> idset -> idset
+
+val remove : n -> idset -> idset
+
+val union : idset -> idset -> idset
+
+val is_empty : idset -> bool
+
+val diff : idset -> idset -> idset
+
+val symdiff_count : idset -> idset -> nat
+
+val list_eqb : n list -> n list -> bool
+
+type err = n
+
+type 'a r =
+| ROk of 'a
+| RErr of err
+
+val rbind : 'a1 r -> ('a1 -> 'a2 r) -> 'a2 r
+
+val e_no_progress_voter : err
+
+val e_no_progress_learner : err
+
+val e_learner_outgoing : err
+
+val e_learner_incoming : err
+
+val e_no_progress_next : err
+
+val e_next_not_outgoing : err
+
+val e_next_nonjoint : err
+
+val e_autoleave_nonjoint : err
+
+val e_already_joint : err
+
+val e_zero_voter_joint : err
+
+val e_leave_nonjoint : err
+
+val e_not_joint : err
+
+val e_simple_in_joint : err
+
+val e_more_than_one : err
+
+val e_removed_all : err
+
+val site_invalid_restore : site
+
+type conf = { incoming : idset; outgoing : idset; learners : idset;
+              learners_next : idset; auto_leave : bool }
+
+val empty_conf : conf
+
+type cctype =
+| AddNode
+| RemoveNode
+| AddLearnerNode
+
+type ccsingle = cctype * n
+
+type mct =
+| MAdd
+| MRemove
+
+type changes = (n * mct) list
+
+type conf_state = { cs_voters : n list; cs_learners : n list;
+                    cs_voters_outgoing : n list; cs_learners_next : n list;
+                    cs_auto_leave : bool }
+
+val last_change : n -> changes -> mct option
+
+val contains : idset -> changes -> n -> bool
+
+val joint : conf -> bool
+
+val check_learners : conf -> idset -> changes -> n list -> unit r
+
+val check_learners_next : conf -> idset -> changes -> n list -> unit r
+
+val check_invariants : conf -> idset -> changes -> unit r
+
+val set_incoming : conf -> idset -> conf
+
+val set_outgoing : conf -> idset -> conf
+
+val set_learners : conf -> idset -> conf
+
+val set_auto_leave : conf -> bool -> conf
+
+val init_progress : conf -> changes -> n -> bool -> conf * changes
+
+val make_voter : idset -> conf -> changes -> n -> conf * changes
+
+val make_learner : idset -> conf -> changes -> n -> conf * changes
+
+val remove_node : idset -> conf -> changes -> n -> conf * changes
+
+val apply_one : idset -> (conf * changes) -> ccsingle -> conf * changes
+
+val apply_loop : idset -> (conf * changes) -> ccsingle list -> conf * changes
+
+val apply_changes :
+  idset -> conf -> changes -> ccsingle list -> (conf * changes) r
+
+val check_and_copy : conf -> idset -> unit r
+
+val simple : conf -> idset -> ccsingle list -> (conf * changes) r
+
+val enter_joint : bool -> conf -> idset -> ccsingle list -> (conf * changes) r
+
+val leave_removals : conf -> changes
+
+val leave_joint : conf -> idset -> (conf * changes) r
+
+val apply_change : idset -> (n * mct) -> idset
+
+val apply_conf : idset -> changes -> idset
+
+type tracker = conf * idset
+
+val empty_tracker : tracker
+
+val commit : tracker -> (conf * changes) r -> tracker r
+
+val do_simple : tracker -> ccsingle list -> tracker r
+
+val do_enter_joint : bool -> tracker -> ccsingle list -> tracker r
+
+val do_leave_joint : tracker -> tracker r
+
+val to_conf_change_single : conf_state -> ccsingle list * ccsingle list
+
+val simple_each : tracker -> ccsingle list -> tracker r
+
+val restore : tracker -> conf_state -> tracker r
+
+val to_conf_state : conf -> conf_state
+
+val eq_without_order : n list -> n list -> bool
+
+val conf_state_eq : conf_state -> conf_state -> bool
+
+val raft_new_restore : conf_state -> tracker r res
+
+type transition =
+| Auto
+| Implicit
+| Explicit
+
+type ccv2 = { v2_transition : transition; v2_changes : ccsingle list }
+
+val v2_enter_joint : ccv2 -> bool option
+
+val v2_leave_joint : ccv2 -> bool
+
+val v1_into_v2 : cctype -> n -> ccv2
+
+val apply_conf_change : tracker -> ccv2 -> tracker r
+
+val dump_tracker : tracker -> n list
+
+val enc_mct : mct -> n
+
+val dump_changes : changes -> n list
+
+val malformed : n list
+
+val take_list : n list -> (n list * n list) option
+
+val dec_type : n -> cctype option
+
+val dec_trans : n -> transition option
+
+val take_pairs : nat -> n list -> (ccsingle list * n list) option
+
+val take_ccs : n list -> (ccsingle list * n list) option
+
+val take_cs : n list -> (conf_state * n list) option
+
+val enc_restore : tracker r res -> n list
+
+val changer_step : tracker -> (conf * changes) r -> tracker * n list
+
+val v2_step : tracker -> ccv2 -> tracker * n list
+
+val run_ops0 : nat -> tracker -> n list -> n list
+
+val run_confchange : n list -> n list
